@@ -215,6 +215,31 @@ def judge(case) -> Verdict:
             meta = [(u, ln) for (u, ln) in meta]
         split = validate_translation(v, items, meta, after, after_platform, detail, level)
         _ = blocks_before
+        again = case.get("again")
+        if again and level == "acl" and not v.fails and not any(it["t"] == "ace" and neq_multi(it["rec"]) for it in items):
+            # the same ACL object is split a second time after a multi-port entry was appended in place
+            G.validate_rec(again, "ios")
+            if neq_multi(again) or G.rec_has_group(again):
+                raise Invalid()
+            order = {u: k for k, (u, _) in enumerate(meta)}
+            items2 = []
+            for it, (u, _) in zip(items, meta):
+                if it["t"] == "ace":
+                    items2.extend({"t": "ace", "rec": r} for r in expected_run(it["rec"]))
+                else:
+                    items2.append(it)
+            _ = order
+            if len(items2) != len(after):
+                raise Invalid()
+            new = dict(again, seq=0)
+            acl.append(A.build_ace(new, "ios", version=acl_case.get("version", "0")))
+            items2.append({"t": "ace", "rec": new})
+            objs2 = list(A.flat_items(acl.items))
+            meta2 = [(o.uuid, o.line) for o in objs2]
+            acl.ungroup_ports()
+            detail2 = dict(detail, after_first_split=[ln for _, ln in meta2], output=acl.line)
+            split2 = validate_translation(v, items2, meta2, list(A.flat_items(acl.items)), "ios", detail2, "acl-second-call")
+            v.label("split-again-after-append", "second-split" if split2 else "second-no-split")
     v.nt(bool(split))
     v.label(level, "split" if split else "no-split")
     if any(it["t"] == "ace" and neq_multi(it["rec"]) for it in items):
@@ -270,6 +295,12 @@ def case_st(draw, tier):
     if level in ("ace", "acegroup"):
         acl["group_by"] = ""
     case = {"acl": acl, "level": level, "pick": draw(st.integers(0, 7))}
+    if level == "acl" and draw(st.sampled_from(range(3))) == 1:
+        case["again"] = G.to_native(draw(G.ace_st("ios", kmax=2, noise=False, seq=False, neq_multi=False,
+                                                  protos=st.sampled_from([6, 6, 17]))), "ios")
+        if draw(st.sampled_from(range(4))) > 0:
+            vals = draw(st.lists(st.sampled_from([22, 53, 80, 123, 443, 8080]), min_size=2, max_size=3, unique=True))
+            case["again"][draw(st.sampled_from(["sp", "dp"]))] = {"op": "eq", "v": vals, "nm": [-1] * len(vals)}
     if level in ("acl", "platform") and acl["group_by"] and draw(st.booleans()):
         case["tail"] = G.to_native(draw(G.ace_st("ios", kmax=2, noise=False, seq=False, protos=PORTY)), "ios")
     return case
